@@ -130,16 +130,25 @@ def effectJson : Effect → Json
   | .carried => .arr #[.str "carried"]
   | .invokeWatching ids => .arr #[.str "watch", strs ids]
   | .spawn ids => .arr #[.str "spawn", strs ids]
+  | .purge ids => .arr #[.str "purge", strs ids]
   | .addFinalizer => .arr #[.str "fin+"]
   | .removeFinalizer => .arr #[.str "fin-"]
   | .handle ids => .arr #[.str "handle", strs ids]
   | .touch => .arr #[.str "touch"]
 
+def record? (j : Json) : Option (String × List String) := do
+  match ← jArr? j with
+  | [i, subs] => do pure (← jStr? i, ← jStrList? subs)
+  | _ => none
+
 def obj? (j : Json) : Option Obj := do
   some { deletedEvent := ← jBool? (← jField? j "deleted"), ongoing := ← jBool? (← jField? j "ongoing"),
          blocked := ← jBool? (← jField? j "blocked"), carried := ← jBool? (← jField? j "carried"),
+         carriedOps := ← jBool? (← jField? j "carriedOps"),
          lingering := ← jBool? (← jField? j "lingering"), handlerDelays := ← jBool? (← jField? j "hdelays"),
-         resumed := ← jStrList? (← jField? j "resumed") }
+         resumed := ← jStrList? (← jField? j "resumed"),
+         records := ← (← jArr? (← jField? j "records")).mapM record?,
+         timed := ← jBool? (← jField? j "timed") }
 
 def resource? (j : Json) : Option Resource := do
   some { group := ← jStr? (← jField? j "group"), version := ← jStr? (← jField? j "version"),
@@ -201,12 +210,18 @@ def handle : DrvHandler := fun op args =>
       let hs ← handlers? hs
       let c ← cause? c
       some (ok (.bool (prematchAny hs c)))
-  | "C15.cycle", [w, s, ch, cw, cs, cc, o, stopped] => do
+  | "C15.cycle", [w, s, ch, cw, cs, cc, o, stopped, v] => do
       let r : Registry J := { watching := ← handlers? w, spawning := ← handlers? s, changing := ← handlers? ch }
       let cs : Causes J := { watching := ← cause? cw, spawning := ← cause? cs, changing := ← cause? cc }
       let o ← obj? o
       let stopped ← jStrList? stopped
-      some (ok (.arr ((cycle r cs o stopped).map effectJson).toArray))
+      -- which variant of processing.py the harness found in the code under test (checked by Kopf.Tie.C15)
+      let v : Repairs ← match ← jArr? v with
+        | [a, b, c, d] => do pure ⟨← jBool? a, ← jBool? b, ← jBool? c, ← jBool? d⟩
+        | _ => none
+      -- the effects, and last whether `delays` (what `application.apply` is given) is non-empty
+      some (ok (.arr (((cycleAt v r cs o stopped).map effectJson) ++
+        [Json.arr #[.str "delays", .bool (cycleDelaysAt v r cs o stopped)]]).toArray))
   | _, _ => none
 
 end Kopf.Drv.C15
